@@ -1,6 +1,7 @@
 import Driver.Loop
 import PyGqlModel.Depth
 import PyGqlModel.Spec.DepthSpec
+import PyGqlModel.Generated.DepthVariant
 open PyGql PyGql.Depth
 
 /-!
@@ -14,6 +15,8 @@ open PyGql PyGql.Depth
             "rule":[[flagged op indices] | "err:<kind>"  per grid entry],
             "rulev":[same for the model of the rule after C19-Q1vars.patch (variables coerced per operation)],
             "ruler":[same for `ruleR`: request key "raw" = arbitrary JSON request variables, "vd" entries carry "ty":"b"|"i"],
+            "rulert":[same for `ruleRT` (after C19-Q1vars2.patch)], "rulecur": `ruleRT` or `ruleR` by the EXTRACTED flag
+                        Generated/DepthVariant.tolerantSkip,
             "pipeline":["executed"|"rejected-depth"|"rejected-other"|"err:<kind>" per grid entry; request key "derr" = number of
                         errors of the default validator] (model of graphql_blocking(validators=[default_validator, rule])),
             "orig":[same for the model of the unchanged rule],
@@ -101,6 +104,11 @@ def handle (j : J) : J :=
       ("rule", .arr (grid.map fun (f, l) => resJ (rule fuel l f doc vars))),
       ("rulev", .arr (grid.map fun (f, l) => resJ (ruleV fuel l f doc (varDefsOfJson (j.getD "doc")) vars))),
       ("ruler", .arr (grid.map fun (f, l) => resJ (ruleR fuel l f doc (varDefsROfJson (j.getD "doc")) (rawVarsOfJson (j.getD "raw"))))),
+      ("rulert", .arr (grid.map fun (f, l) => resJ (ruleRT fuel l f doc (varDefsROfJson (j.getD "doc")) (rawVarsOfJson (j.getD "raw"))))),
+      ("rulecur", .arr (grid.map fun (f, l) => resJ (
+        if PyGql.Generated.DepthVariant.tolerantSkip
+        then ruleRT fuel l f doc (varDefsROfJson (j.getD "doc")) (rawVarsOfJson (j.getD "raw"))
+        else ruleR fuel l f doc (varDefsROfJson (j.getD "doc")) (rawVarsOfJson (j.getD "raw"))))),
       ("pipeline", .arr (grid.map fun (f, l) =>
         match pipeline fuel l f doc (varDefsOfJson (j.getD "doc")) vars (j.natD "derr") with
         | .raised e => errJ e
